@@ -60,7 +60,7 @@ Definition Known05 (w : world) (o : op) : bool :=
 
 Definition Pending05 (w : world) (o : op) : bool :=
   match o with
-  | OpCopy _ _ | OpCopyAt _ _ _ | OpMove _ _ | OpMoveAt _ _ _ | OpRemove _ _ | OpRemoveKind _ _
+  | OpCopy _ _ | OpCopyAt _ _ _ | OpMove _ _ | OpMoveAt _ _ _
   | OpSetItemName _ _ | OpRemoveFile _ _ | OpRemoveFromFile _ _ => true
   | _ => false
   end.
